@@ -33,7 +33,7 @@ CONTRACTS = {
         returns=BOOL,
         ensures=["result == stale(graph, state, node, last_exec)"],
         loops=[{"invariant": [
-            "not any(not (not gated(graph, node) and node.name in graph.self_producers.get(p, set())) and ver(state, p) != last_exec.input_versions.get(p, 0) for p in _seq[:_i])",
+            "not any(not (not gated(graph, node) and p in graph.self_producers and node.name in graph.self_producers[p]) and ver(state, p) != last_exec.input_versions.get(p, 0) for p in _seq[:_i])",
         ]}],
         mustfail="result == (not stale(graph, state, node, last_exec))",
     ),
@@ -60,6 +60,116 @@ CONTRACTS = {
         returns=BOOL,
         ensures=["result == names(decision, node_name, END)"],
         imports={"END": "hypergraph.nodes.gate"},
-        mustfail="result == (decision is not None and ((node_name in decision) if isinstance(decision, list) else decision == node_name))",
+        mustfail="result == (decision is not END and decision is not None)",
     ),
 }
+
+CONTRACTS.update({
+    F + "get_value_source": dict(
+        props=["C01", "C05", "C18"],
+        params={"param": STR, "node": NODE, "graph": GRAPH, "state": STATE, "provided_values": DICT(STR, ANY)},
+        returns=FIXTUP(ANY, ANY),
+        # call-site precondition (DESIGN 2.3): initialize_state seeds every provided value into state.values
+        requires=["all(k in state.values for k in provided_values)"],
+        ensures=[
+            "src_defined(graph, state, node, param)",
+            "result[0] is src_kind(graph, state, node, param, ValueSource)",
+            "result[1] is src_value(graph, state, node, param)",
+        ],
+        raises={"KeyError": "not src_defined(graph, state, node, param)"},
+        mustfail="result[0] is (ValueSource.DEFAULT if node.has_signature_default_for(param) else src_kind(graph, state, node, param, ValueSource))",
+    ),
+})
+
+CONTRACTS.update({
+    F + "_safe_deepcopy": dict(
+        props=["C18"],
+        params={"value": ANY, "param_name": STR},
+        returns=ANY,
+        ensures=["is_deepcopy(result, value)"],
+        may_raise={"GraphConfigError": True},
+        mustfail="result is value",
+    ),
+    F + "_resolve_input": dict(
+        props=["C01", "C18"],
+        params={"param": STR, "node": NODE, "graph": GRAPH, "state": STATE, "provided_values": DICT(STR, ANY)},
+        returns=ANY,
+        requires=["all(k in state.values for k in provided_values)"],
+        ensures=["resolved_ok(result, graph, state, node, param, ValueSource)"],
+        raises={"KeyError": "not src_defined(graph, state, node, param)"},
+        may_raise={"GraphConfigError": "src_kind(graph, state, node, param, ValueSource) is ValueSource.DEFAULT"},
+        mustfail="result is src_value(graph, state, node, param)",
+    ),
+    F + "collect_inputs_for_node": dict(
+        props=["C01", "C02", "C18"],
+        params={"node": NODE, "graph": GRAPH, "state": STATE, "provided_values": DICT(STR, ANY)},
+        returns=DICT(STR, ANY),
+        requires=["all(k in state.values for k in provided_values)", "all(src_defined(graph, state, node, p) for p in node.inputs)"],
+        ensures=[
+            "all(p in result for p in node.inputs)",
+            "all(k in node.inputs for k in result)",
+            "all(resolved_ok(result[p], graph, state, node, p, ValueSource) for p in node.inputs)",
+        ],
+        may_raise={"GraphConfigError": True},
+        modifies=[],
+        loops=[{"invariant": [
+            "all(p in inputs for p in _seq[:_i])",
+            "all(k in _seq[:_i] for k in inputs)",
+            "all(resolved_ok(inputs[p], graph, state, node, p, ValueSource) for p in _seq[:_i])",
+        ]}],
+        mustfail="all(result[p] is src_value(graph, state, node, p) for p in node.inputs)",
+    ),
+})
+
+CONTRACTS.update({
+    F + "_clear_stale_gate_decisions": dict(
+        props=["C03", "C04"],
+        params={"graph": GRAPH, "state": STATE},
+        returns=NONE_T,
+        requires=["nodes_keyed_by_name(graph)"],
+        ensures=[
+            "forall_keys(lambda k: (k in state.routing_decisions) == (old(k in state.routing_decisions) and not old(clears(graph, state, k, END))), old(dict(state.routing_decisions)), graph._nodes)",
+            "forall_keys(lambda k: (k not in state.routing_decisions) or state.routing_decisions[k] is old(state.routing_decisions.get(k)), state.routing_decisions)",
+        ],
+        modifies=["state.routing_decisions"],
+        imports={"END": "hypergraph.nodes.gate"},
+        loops=[{"invariant": [
+            "forall_keys(lambda k: (k in state.routing_decisions) == (old(k in state.routing_decisions) and not (old(clears(graph, state, k, END)) and k in _keys[:_i])), old(dict(state.routing_decisions)), graph._nodes)",
+            "forall_keys(lambda k: (k not in state.routing_decisions) or state.routing_decisions[k] is old(state.routing_decisions.get(k)), state.routing_decisions)",
+        ]}],
+        mustfail="forall_keys(lambda k: (k in state.routing_decisions) == old(k in state.routing_decisions), state.routing_decisions)",
+    ),
+})
+
+CLEAR_POST = [
+    "forall_keys(lambda k: (k in state.routing_decisions) == (old(k in state.routing_decisions) and not old(clears(graph, state, k, END))), old(dict(state.routing_decisions)), graph._nodes)",
+    "forall_keys(lambda k: (k not in state.routing_decisions) or state.routing_decisions[k] is old(state.routing_decisions.get(k)), state.routing_decisions)",
+]
+
+CONTRACTS.update({
+    F + "_get_activated_nodes": dict(
+        props=["C03"],
+        params={"graph": GRAPH, "state": STATE},
+        returns=SET(STR),
+        requires=["nodes_keyed_by_name(graph)"],
+        ensures=CLEAR_POST + [
+            "all((n in result) == node_activated(graph, state, n, END) for n in graph._nodes)",
+            "all(n in graph._nodes for n in result)",
+        ],
+        modifies=["state.routing_decisions"],
+        imports={"END": "hypergraph.nodes.gate"},
+        fresh_result=True,
+        loops=[
+            {"invariant": [
+                "all((n in activated) == node_activated(graph, state, n, END) for n in _seq[:_i])",
+                "forall_keys(lambda n: n not in activated or n in _seq[:_i], activated)",
+            ]},
+            {"invariant": [
+                "all((n in activated) == node_activated(graph, state, n, END) for n in _seq0[:_i0])",
+                "forall_keys(lambda n: n not in activated or n in _seq0[:_i0], activated)",
+                "not any(gate_opens(graph, state, g, node_name, END) for g in _seq[:_i])",
+            ]},
+        ],
+        mustfail="all((n in result) == (not gated_name(graph, n)) for n in graph._nodes)",
+    ),
+})
